@@ -21,13 +21,28 @@ func (pt *pathTracker) stillOnUnfollowedRemotePath(newPath datamodel.Path) bool 
 	if pt.lastUnfollowedRemotePath.Len() == 0 {
 		return false
 	}
-	// are we still on it?
-	if newPath.Len() <= pt.lastUnfollowedRemotePath.Len() {
+	// are we still on it? only if the new path lies strictly beneath it
+	if newPath.Len() <= pt.lastUnfollowedRemotePath.Len() || !hasPathPrefix(newPath, pt.lastUnfollowedRemotePath) {
 		// if not, reset to no known missing remote path
 		pt.lastUnfollowedRemotePath = datamodel.NewPath(nil)
 		return false
 	}
 	// otherwise we're on a missing path
+	return true
+}
+
+// hasPathPrefix reports whether the leading segments of path equal prefix
+func hasPathPrefix(path datamodel.Path, prefix datamodel.Path) bool {
+	pathSegments := path.Segments()
+	prefixSegments := prefix.Segments()
+	if len(prefixSegments) > len(pathSegments) {
+		return false
+	}
+	for i, segment := range prefixSegments {
+		if !pathSegments[i].Equals(segment) {
+			return false
+		}
+	}
 	return true
 }
 
